@@ -167,9 +167,12 @@ PROPS = {
     ),
     "C13": dict(
         title="Truncated-signature verification is sound and complete",
-        verus=[], kani=[],
+        verus=[("p256_prepare_truncate", 100, "quick")], kani=[],
         cases=["ed25519_trunc", "p256_trunc", "p256_prepare_truncate", "p256_prepare_truncate_short"],
-        level="exploration",
+        level_text="The documented preparation step of the P-256 scheme, PrivateKey::prepare_truncate, is proved by Verus for every byte string: it returns a value exactly when the length is even, non-zero and at most 64 and the big-endian halves satisfy p-n <= r < n and 0 < s < n; the output then carries r (big-endian, left-padded) and the little-endian encoding of s, replaced by n - s when s >= 2^255 (two-limb subtraction with borrow proved exact). The defect D7 repaired earlier fails this proof when re-introduced. Truncated verification itself (verify_trunc_*: baby-step/giant-step search, UX_COMP table, x-only arithmetic) for Ed25519 and P-256: stand-in only (round trips through truncation for every rm in 8..=32 incl. boundary indices, forged (key, message, signature) triples with chosen s).",
+        level_note="std byte-order conversions through the documented `lebytes` twins; <&[u8; 16]>::try_from declared.",
+        assumptions=["u128::from_be_bytes / to_le_bytes twins and <&[T; N]>::try_from: std semantics declared"],
+        not_reached=["verify_trunc_inner (Ed25519), verify_trunc_hash (P-256), x_sequence_vartime, the UX_COMP table"],
     ),
     "C15": dict(
         title="FROST: any qualifying signer set signs validly; bad shares are rejected",
